@@ -311,11 +311,18 @@ func c13body(cfg c13cfg) func() {
 			return
 		}
 		if cfg.stop {
+			before := dials
 			mgr.Stop()
 			vrt.Sleep(time.Minute)
 			vrt.WaitIdle()
 			if !runReturned {
 				vrt.Fail("C13|run-does-not-return-after-stop", "%s: Stop was called but Run has not returned", desc)
+			}
+			// the end of the session that Stop brings about is not a loss: nothing connects again
+			vrt.Sleep(30 * time.Minute)
+			vrt.WaitIdle()
+			if dials != before {
+				vrt.Fail("C13|reconnects-after-stop", "%s: %d connection attempts were made after Stop", desc, dials-before)
 			}
 		}
 	}
